@@ -19,6 +19,7 @@ Event(ev) ==
       [] ev.ev = "AddPartition" -> AddPartition
       [] ev.ev = "Start" -> Start
       [] ev.ev = "EmitBatch" -> ev.exact /\ Has(ev.p, ev.lo, ev.hi, "scheduled") /\ EmitBatch(Idx(ev.p, ev.lo, ev.hi, "scheduled"))
+      [] ev.ev = "MsgDeliver" -> Same          \* (behind flatten(): a single message reaches the consumer)
       [] ev.ev = "FailBatch" -> Has(ev.p, ev.lo, ev.hi, "scheduled") /\ FailBatch(Idx(ev.p, ev.lo, ev.hi, "scheduled"))
       [] ev.ev = "Process" -> Has(ev.p, ev.lo, ev.hi, "emitted") /\ Process(Idx(ev.p, ev.lo, ev.hi, "emitted"))
       [] ev.ev = "Commit" -> \E i \in 1 .. Len(fl) : fl[i].p = ev.p /\ fl[i].hi + 1 = ev.offset /\ CommitCb(i)
